@@ -125,3 +125,8 @@ Definition check_child (c : case) : nat :=
          && match late_toks c with [] => false | _ => true end) 8
   + bit (negb (statement c []) && statement c (late_toks c ++ lost_early_toks c)
          && match lost_early_toks c with [] => false | _ => true end) 16.
+
+(* tests whose captured output is byte-for-byte the same: each failing test still gets its own Stdout: / Stderr: block *)
+Record same_case := { sc_failing : nat; sc_out : nat; sc_err : nat; sc_aborted : bool }.
+Definition check_same (c : same_case) : nat :=
+  bit (sc_aborted c || negb (Nat.eqb (sc_out c) (sc_failing c) && Nat.eqb (sc_err c) (sc_failing c))) 2.
